@@ -4,6 +4,9 @@ use std::convert::TryFrom;
 use std::iter;
 
 pub struct AnsiElementIterator<'a> {
+    // The input
+    s: &'a str,
+
     // The input bytes
     bytes: Bytes<'a>,
 
@@ -62,6 +65,7 @@ impl<'a> AnsiElementIterator<'a> {
     pub fn new(s: &'a str) -> Self {
         Self {
             machine: anstyle_parse::Parser::<anstyle_parse::DefaultCharAccumulator>::new(),
+            s,
             bytes: s.bytes(),
             element: None,
             text_length: 0,
@@ -76,6 +80,24 @@ impl<'a> AnsiElementIterator<'a> {
         self.element = performer.element;
         self.text_length += performer.text_length;
         self.pos += 1;
+    }
+
+    // The parser works on bytes: it takes a byte >= 0xA0 that follows ESC (or sits inside an escape
+    // sequence) for the corresponding 7-bit character, and so can end a sequence in the middle of
+    // a multi-byte character. The ranges handed out are used to slice the input: let such a
+    // sequence swallow the rest of the character.
+    fn finish_char(&mut self) {
+        while !self.s.is_char_boundary(self.pos) {
+            self.bytes.next();
+            self.pos += 1;
+        }
+    }
+
+    fn ceil_char_boundary(&self, mut i: usize) -> usize {
+        while i < self.pos && !self.s.is_char_boundary(i) {
+            i += 1;
+        }
+        i
     }
 }
 
@@ -95,9 +117,10 @@ impl Iterator for AnsiElementIterator<'_> {
         if let Some(mut element) = self.element.take() {
             // There is a non-text element waiting to be emitted, but it may have preceding
             // text, which must be emitted first.
+            self.finish_char();
             if self.text_length > 0 {
                 let start = self.start;
-                self.start += self.text_length;
+                self.start = self.ceil_char_boundary(self.start + self.text_length);
                 self.text_length = 0;
                 self.element = Some(element);
                 return Some(Element::Text(start, self.start));
